@@ -73,6 +73,7 @@ def run(ctx, rep):
     rep.section(r6_const_value, ctx, rep, prog)
     rep.section(r3, ctx, rep, prog)
     rep.section(r4, ctx, rep)
+    rep.section(w_merge, ctx, rep)
     rep.section(w, ctx, rep, prog)
 
 
@@ -353,6 +354,17 @@ def r4(ctx, rep):
         txt = json.dumps(tyv)
         ok = '"get_field_type_override"' in txt and '"try"' in txt and ('try_from' in txt)
         rep.check(ok, 'R4', f"{f['name']}:type-parse", 'type override or try_from, both under `?`', f"{f['name']}: the field type is not obtained from the override/try_from under `?`", site)
+
+
+def w_merge(ctx, rep):
+    """W2 (merge): the per-file results of one crate / one output are folded with `ParsedData += ParsedData` before the error gate
+    looks at them — the merged value must carry the errors of *both* sides, or the rejection of every file but the last merged one
+    is lost and the run writes output."""
+    got = pr.merge_sides(ctx, 'errors')
+    if got is None:
+        raise core.Incomplete('W2: `impl AddAssign for ParsedData` not found (the merge of per-file results)')
+    fs = [g for g in ctx.astq['functions'] if g['name'].split('::')[-1] == 'add_assign' and (g.get('self_ty') or '').split('<')[0] == 'ParsedData']
+    rep.check({'self', 'rhs'} <= got, 'W2', 'merge:errors-of-both-sides', 'ParsedData += keeps the errors of both operands', f"ParsedData::add_assign leaves `errors` with the {sorted(got) or 'neither'} side only: the parse errors of the other operand are dropped when per-file results are merged, check_parse_errors sees nothing and the output is written without the rejected item", {'file': fs[0]['file'], 'line': fs[0]['line']})
 
 
 def w(ctx, rep, prog):
